@@ -73,6 +73,14 @@ def g_pair(a, b):
     return f"({a}, {b})"
 
 
+def g_grammar(cg):
+    """canonical grammar (dict nonterminal -> sequence of sequences of symbols) -> Gallina `grammar`"""
+    return "[" + "; ".join(
+        f"({g_str(k)}, [" + "; ".join("[" + "; ".join(g_str(sym) for sym in alt) + "]" if alt else "(@nil str)"
+                                       for alt in alts) + "])"
+        for k, alts in cg.items()) + "]"
+
+
 def g_res(kind, val=None):
     """('ok', literal) | ('raise', 'TypeErr')"""
     return f"(Ok {val})" if kind == "ok" else f"(Raise {val})"
@@ -141,13 +149,17 @@ def coq_files():
     return res
 
 
-def coq_build(timeout=1500):
-    """full .vo build (incremental via make).  Returns (ok, log)."""
-    rc, out = sh([os.path.join(VERIF, "harness", "mkproject.sh")], timeout=120)
-    if rc != 0:
-        return False, out
-    rc, out2 = sh(["make", "-j", str(NPROC), "-k"], timeout=timeout, cwd=COQ)
-    return rc == 0, out + out2
+def coq_build(timeout=2400):
+    """full .vo build (incremental via make), serialised by a file lock.  Returns (ok, log)."""
+    import fcntl
+    os.makedirs(BUILD, exist_ok=True)
+    with open(os.path.join(BUILD, ".make.lock"), "w") as lk:
+        fcntl.flock(lk, fcntl.LOCK_EX)
+        rc, out = sh([os.path.join(VERIF, "harness", "mkproject.sh")], timeout=120)
+        if rc != 0:
+            return False, out
+        rc, out2 = sh(["make", "-j", str(NPROC), "-k"], timeout=timeout, cwd=COQ)
+        return rc == 0, out + out2
 
 
 def forbidden_scan():
